@@ -1006,11 +1006,75 @@ func (s *Server) handleDecline(req *dhcpv4.DHCPv4) {
 	s.leasesMu.Unlock()
 
 	if exists && lease != nil {
+		if len(lease.CircuitID) > 0 {
+			cidKey := hex.EncodeToString(lease.CircuitID)
+			s.leasesByCircuitIDMu.Lock()
+			delete(s.leasesByCircuitID, cidKey)
+			s.leasesByCircuitIDMu.Unlock()
+		}
 		if pool := s.poolMgr.GetPool(lease.PoolID); pool != nil {
 			// Take the address away from the client first, otherwise it stays assigned to the
 			// decliner and is offered to it again; then quarantine it
 			pool.Release(lease.IP)
 			pool.MarkUnavailable(lease.IP)
+		}
+		// The session is over: nothing may keep answering or translating for it
+		s.teardownLeaseResources(mac, lease, radius.TerminateCauseUserRequest)
+	}
+}
+
+// teardownLeaseResources releases what a session held besides its address: accounting (Stop),
+// QoS policy, NAT block and the fast-path cache entries under all three keys. It is used by the
+// termination paths that do not go through handleRelease (DECLINE, lease expiry).
+func (s *Server) teardownLeaseResources(mac net.HardwareAddr, lease *Lease, cause uint32) {
+	if s.radiusClient != nil && lease.SessionID != "" {
+		sessionTime := uint32(time.Since(lease.SessionStart).Seconds())
+		go func() {
+			err := s.radiusClient.SendAccounting(context.Background(), &radius.AcctRequest{
+				SessionID:      lease.SessionID,
+				Username:       mac.String(),
+				MAC:            mac,
+				FramedIP:       lease.IP,
+				StatusType:     radius.AcctStatusStop,
+				InputOctets:    lease.InputBytes,
+				OutputOctets:   lease.OutputBytes,
+				SessionTime:    sessionTime,
+				TerminateCause: cause,
+				Class:          lease.Class,
+			})
+			if err != nil {
+				s.logger.Warn("Failed to send RADIUS Accounting-Stop",
+					zap.String("session_id", lease.SessionID),
+					zap.Error(err),
+				)
+			}
+		}()
+	}
+
+	if s.qosMgr != nil {
+		if err := s.qosMgr.RemoveSubscriberQoS(lease.IP); err != nil {
+			s.logger.Warn("Failed to remove QoS policy", zap.String("ip", lease.IP.String()), zap.Error(err))
+		}
+	}
+
+	if s.natMgr != nil {
+		if err := s.natMgr.DeallocateNAT(lease.IP); err != nil {
+			s.logger.Warn("Failed to deallocate NAT", zap.String("ip", lease.IP.String()), zap.Error(err))
+		}
+	}
+
+	if s.loader != nil {
+		if mac != nil {
+			s.loader.RemoveSubscriber(ebpf.MACToUint64(mac))
+		}
+		if (lease.STag > 0 || lease.CTag > 0) && s.loader.HasVLANSupport() {
+			s.loader.RemoveVLANSubscriber(lease.STag, lease.CTag)
+		}
+		if len(lease.CircuitID) > 0 {
+			s.loader.RemoveCircuitIDMapping(lease.CircuitID)
+			if s.loader.HasCircuitIDSubscriberSupport() {
+				s.loader.RemoveCircuitIDSubscriber(lease.CircuitID)
+			}
 		}
 	}
 }
@@ -1154,23 +1218,9 @@ func (s *Server) cleanupExpiredLeases() {
 			pool.Release(lease.IP)
 		}
 
-		// Remove from fast path cache (MAC, VLAN pair and circuit-id keys, as on RELEASE)
-		if s.loader != nil {
-			hwAddr, _ := net.ParseMAC(mac)
-			if hwAddr != nil {
-				macU64 := ebpf.MACToUint64(hwAddr)
-				s.loader.RemoveSubscriber(macU64)
-			}
-			if (lease.STag > 0 || lease.CTag > 0) && s.loader.HasVLANSupport() {
-				s.loader.RemoveVLANSubscriber(lease.STag, lease.CTag)
-			}
-			if len(lease.CircuitID) > 0 {
-				s.loader.RemoveCircuitIDMapping(lease.CircuitID)
-				if s.loader.HasCircuitIDSubscriberSupport() {
-					s.loader.RemoveCircuitIDSubscriber(lease.CircuitID)
-				}
-			}
-		}
+		// Accounting-Stop, QoS, NAT and the fast path cache (MAC, VLAN pair and circuit-id keys), as on RELEASE
+		hwAddr, _ := net.ParseMAC(mac)
+		s.teardownLeaseResources(hwAddr, lease, radius.TerminateCauseSessionTimeout)
 	}
 	s.leasesMu.Unlock()
 
